@@ -73,6 +73,14 @@ MAP = [
  ("S77", "C05", "B", "receipt-digest-check-skipped-for-empty-receipt", "a retained receipt truncated at rest to zero candidates (same tx), then a replay across that tick", "first run: caught (C05.R3 guard strength: the ReceiptDigestMismatch gate gained a value-test decider)"),
  ("S78", "C07", "A", "finalize-skips-empty-outputs", "a commit with outputs followed by a commit with none; a replay ending on the empty one that does not start from U0", "first run: missed"),
  ("S79", "C07", "B", "checkpoint-state-before-inclusive", "a checkpoint stored at exactly target+1 and a restore (service replay, backward seek, or forward seek across another checkpoint)", "first run: missed"),
+ ("S80", "C02", "A", "worker-deltas-kept-in-the-engine-across-ticks", "a tick where a rule panics on a lower-indexed worker while a higher-indexed worker finished a unit; the host catches the panic; a later tick with at least as many workers", "first run: caught (C09.R4 engine-swap guard: a new Engine field written by the commit body is not saved/restored; C02.R1 spawn captures; C14.R6)"),
+ ("S81", "C02", "B", "single-producer-merge-skips-conflict-scan", "a rule that writes one key twice with different values, at least one other unit in the tick, and a schedule where one worker drains the whole queue", "first run: caught (C02.R5 merge-keeps-every-op, C01.R4 sort-dominates-ok)"),
+ ("S82", "C04", "A", "portal-root-skip-set-keyed-by-local-id", "one tick that opens a portal to a brand-new child and, in another instance, creates/retypes/deletes a node whose local id equals the child root's", "first run: missed"),
+ ("S83", "C04", "B", "jump-to-tick-fast-path-on-state-root", "ticks between the target and the current state that only touched content unreachable from the root, then jump_to_tick(k)", "first run: missed"),
+ ("S84", "C06", "A", "reparented-edge-leaves-empty-bucket", "an existing edge id upserted with a different `from` while it was the only edge of its old bucket, the old source still reachable and given no new out-edge", "first run: missed"),
+ ("S85", "C06", "B", "accumulator-reopen-keeps-child-untouched", "OpenPortal(Empty), DeleteNode(child root), OpenPortal(Empty) again with the same key/child/root", "first run: missed"),
+ ("S86", "C08", "A", "causal-parents-sorted-by-receipt-ref-only", "an envelope citing one receipt in both roles (TickReceipt and ContractInverseTarget) and a second submission listing the same parents in another order", "first run: missed"),
+ ("S87", "C08", "B", "ticketed-ingest-goes-straight-to-the-head-inbox", "an intent ingested and committed through plain ingest, then the same witnessed submission staged through ingest_ticketed_invocation and another pass", "first run: missed"),
 ]
 SRC_PREFIX = {k: "out1" for k in ("S09", "S10", "S11", "S12", "S13", "S14", "S15", "S16", "S17", "S18", "S19", "S20", "S21", "S22", "S23", "S24", "S25", "S26", "S27", "S28")}
 SRC_PREFIX.update({k: "out2" for k in ("S29", "S30", "S31", "S32", "S33", "S34", "S37", "S38", "S41", "S42", "S45", "S46")})
@@ -145,12 +153,20 @@ CHANGE = {
  "S77": "`replay_artifacts_for_entry` merges the retained-receipt and placeholder branches; the decision-digest check is guarded by `!receipt.entries().is_empty()`",
  "S78": "`finalize_replay_metadata` rebuilds `last_materialization` only when the last replayed entry's outputs are non-empty",
  "S79": "`LocalProvenanceStore::checkpoint_state_before` rewritten with `partition_point(|c| tick(c) <= tick)` (contract: `<`)",
+ "S80": "per-worker `TickDelta` buffers moved into a new `Engine::worker_deltas` field reused across ticks; they are drained in the same loop that re-raises a poisoned worker's panic, so higher-indexed workers keep their ops for the next tick",
+ "S81": "`merge_parallel_deltas` drops empty worker deltas and, when exactly one non-empty delta remains, returns `delta.finalize()` without the duplicate-key conflict scan",
+ "S82": "`diff_state`'s set of child roots covered by `OpenPortal` changes from `BTreeSet<NodeKey>` to `BTreeSet<NodeId>` and is checked before both the delete and the upsert branch of `diff_nodes`",
+ "S83": "`Engine::jump_to_tick` returns Ok early when `compute_state_root(current state)` equals the target tick's recorded state root (the root covers only reachable content)",
+ "S84": "`GraphStore::upsert_edge_record`'s detach of the previous bucket simplified to `if let Some(edges) .. retain`: an emptied `edges_from`/`edges_to` bucket is no longer removed",
+ "S85": "`SnapshotAccumulator::apply_open_portal` (Empty) creates instance and root node only through `Entry::Vacant`, dropping the re-insertion of a missing child root on an existing instance",
+ "S86": "`local_intent_with_causal_parents` sorts parents with `sort_unstable_by_key(|p| p.receipt_ref())`; `canonical_causal_parent_receipt_refs` drops its own sort",
+ "S87": "`ingest_ticketed_invocation_inner` calls `heads.inbox_mut(..).ingest(envelope)` directly instead of `self.ingest(envelope)`, bypassing the committed-ingress gate",
  "S48": "`restore_receipt_correlation` returns Ok early when the correlation is already present, skipping the committed-ingress refill",
  "S40": "`diff_edges` matches edges through the reverse indexes (from/to only): a type-only change emits no `UpsertEdge`",
 }
 res = json.load(open("/tmp/seeds/seed_results.json")) if os.path.exists("/tmp/seeds/seed_results.json") else {}
 for sid, prop, var, slug, needs, first in MAP:
-    src = "/tmp/seeds/%s-%s/%s" % (SRC_PREFIX.get(sid, "out"), prop, var)
+    src = "/tmp/seeds/%s-%s/%s" % (SRC_PREFIX.get(sid, "out"), prop, var) if sid < "S80" else "/tmp/seeds/out-R5%s/%s" % (prop, var)
     if not os.path.exists(src + "/patch.diff"):
         print("missing", src); continue
     dst = "%s/%s-%s-%s" % (V, sid, prop.lower(), slug)
@@ -160,7 +176,7 @@ for sid, prop, var, slug, needs, first in MAP:
         shutil.copy(os.path.join(src, "demo", f), os.path.join(dst, "demo", f))
     if os.path.exists(src + "/notes.md"):
         shutil.copy(src + "/notes.md", dst + "/agent_notes.md")
-    log = "/tmp/seeds/confirm-logs/%s%s-%s.log" % ("r4-" if sid >= "S69" else "r3-" if sid >= "S49" else "", prop, var)
+    log = "/tmp/seeds/confirm-logs/%s%s-%s.log" % ("r5-" if sid >= "S80" else "r4-" if sid >= "S69" else "r3-" if sid >= "S49" else "", prop, var)
     confirmed, conf_txt = False, "confirmation pending"
     if os.path.exists(log):
         t = open(log).read()
